@@ -12,7 +12,7 @@
    [sumv k l] the sum of the measurements of k in l.  Timestamps are arbitrary integers supplied with each collection
    (a clock oracle); the theorems relate them by equality only. *)
 From V Require Import C06.Model C06.Spec C06.Glue C06.ProofsTable C06.ProofsStorage C06.ProofsReaders C06.ProofsWorld
-     C06.ProofsSpec C06.ProofsMeets C06.ProofsFinal.
+     C06.ProofsSpec C06.ProofsMeets C06.ProofsFinal C06.Lts C06.ProofsLts C06.ProofsLtsBracket C06.ProofsLtsCons C06.ProofsLtsEx.
 Local Open Scope Z_scope.
 
 (* Sum Merge is associative and commutative with the fresh aggregation as unit ... *)
@@ -177,3 +177,114 @@ Print Assumptions every_view_stream_collected_partial.
 Theorem good_case_exists : case_good ex_cfg ex_ops = true /\ length (run ex_cfg ex_ops) = 4%nat.
 Proof. exact good_case_exists. Qed.
 Print Assumptions good_case_exists.
+
+(* ================================================================================================ lock granularity
+   coq/C06/Lts.v: the storage as an acceptor over the events the scheduler shim logs - per thread lock()/unlock() of
+   attribute_hashmap_lock_ (A), TemporalMetricStorage::lock_ (T), Meter::storage_lock_ (M), calls and returns of Add and
+   Collect.  An Add takes effect at the end of its critical section; a Collect is TWO critical sections: under A the live
+   map is detached into the collector's local state, under T the detached map is pushed onto every reader's stash and the
+   caller's stash is merged and reported; between them recorders (and, if [strict] = false, other collectors) run.
+   [lrun strict tr = Some s]: the trace tr (newest event first) is accepted - tr ranges over ALL interleavings of any number
+   of recorder threads and one collector thread per reader.  strict = true is the SDK's discipline: a collector holds M
+   from before A until after T (Meter::Collect).  What stays outside: data races inside a critical section, weak memory. *)
+
+(* every interleaving, Collects of the storage possibly overlapping: no measurement is lost or duplicated -
+   recorded = reported_r + stash_r + detached maps not yet distributed + live, for every reader and attribute set *)
+Theorem lock_granularity_conservation : forall (K : Type) (keqb : K -> K -> bool),
+  (forall a b : K, keqb a b = true <-> a = b) ->
+  forall (mono : bool) (n : nat) (temps : nat -> temporality) (T : nat) (strict : bool)
+         (tr : list (nat * ev K)) (s : lstate K) (r : nat) (k : K),
+    lrun K keqb mono n temps T strict tr = Some s -> (r < n)%nat ->
+    sumv K keqb k (adds_all K mono (lin K tr)) =
+    rep K keqb temps k s r + stash K keqb k (l_st K s) r + fsum n (fun q => det K keqb k (l_col K s q)) +
+    osum K keqb k (s_cur K (l_st K s)).
+Proof. exact (fun K keqb ok mono n temps T strict tr s r k H Hr => C_eq _ _ _ _ _ _ _ (lts_conservation K keqb ok mono n temps T strict tr s H) r k Hr). Qed.
+Print Assumptions lock_granularity_conservation.
+
+(* when no collector is between its critical sections, a Collect by r leaves reported_r + live = recorded *)
+Theorem lock_granularity_quiescent_collect_exact : forall (K : Type) (keqb : K -> K -> bool),
+  (forall a b : K, keqb a b = true <-> a = b) ->
+  forall (mono : bool) (n : nat) (temps : nat -> temporality) (T : nat) (strict : bool)
+         (tr : list (nat * ev K)) (t r : nat) (s : lstate K) (k : K),
+    lrun K keqb mono n temps T strict ((t, ECUnlockT r) :: tr) = Some s -> no_detached K s ->
+    rep K keqb temps k s r + osum K keqb k (s_cur K (l_st K s)) = sumv K keqb k (adds_all K mono (lin K tr)).
+Proof. exact quiescent_collect_exact. Qed.
+Print Assumptions lock_granularity_quiescent_collect_exact.
+
+(* returned <= taken effect <= called, for every interleaving (measurements non-negative) *)
+Theorem lock_granularity_returned_done_called : forall (K : Type) (keqb : K -> K -> bool),
+  (forall a b : K, keqb a b = true <-> a = b) ->
+  forall (mono : bool) (n : nat) (temps : nat -> temporality) (T : nat) (strict : bool)
+         (tr : list (nat * ev K)) (s : lstate K) (k : K),
+    lrun K keqb mono n temps T strict tr = Some s -> nonneg K (called K mono tr) ->
+    sumv K keqb k (returned K mono tr) <= sumv K keqb k (adds_all K mono (lin K tr)) /\
+    sumv K keqb k (adds_all K mono (lin K tr)) <= sumv K keqb k (called K mono tr).
+Proof. exact returned_done_called. Qed.
+Print Assumptions lock_granularity_returned_done_called.
+
+(* under the SDK's discipline every interleaving IS the atomic history [lin tr] (every Add at the end of its critical
+   section, every Collect where it detaches the live map): same storage, same MetricData for every callback.  Hence
+   delta_conservation, each_measurement_in_exactly_one_interval, cumulative_is_running_total, readers_independent,
+   delta_intervals_abut, cumulative_starts_at_sdk_start above hold for every interleaving at lock granularity *)
+Theorem lock_granularity_linearizable : forall (K : Type) (keqb : K -> K -> bool) (mono : bool) (n : nat)
+         (temps : nat -> temporality) (T : nat) (tr : list (nat * ev K)) (s : lstate K),
+    lrun K keqb mono n temps T true tr = Some s -> quiet K s ->
+    hist_wf K n (lin K tr) /\ l_st K s = state K keqb mono n temps (lin K tr) /\
+    l_outs K s = outs K keqb mono n temps (lin K tr).
+Proof. exact strict_linearizable. Qed.
+Print Assumptions lock_granularity_linearizable.
+
+(* accepted_trace_meets_spec_sched (per storage): at every return of a Collect by reader r, what the callback was given is
+   what the atomic history before this Collect's swap gives; the value C06/SpecSched.v looks at - everything r's callbacks
+   were given so far (delta) / the point just given (cumulative) - is exactly the sum of the measurements that took effect
+   before the swap, at least what had returned before the Collect was called and at most what had been called when it
+   returned.  PARTIAL with respect to SpecSched.spec_sched: proved per storage on the acceptor's events; that the projection
+   of the driver's world-level trace onto a storage (coq/C06/Glue.v lts_events, tev_of) preserves these quantities, the
+   "one MetricData per stream" clause and the clock bracket of md_end are glue, checked at run time only *)
+Theorem accepted_trace_meets_spec_sched_partial : forall (K : Type) (keqb : K -> K -> bool),
+  (forall a b : K, keqb a b = true <-> a = b) ->
+  forall (mono : bool) (n : nat) (temps : nat -> temporality) (T : nat) (tr : list (nat * ev K)) (t r : nat)
+         (o' : option (mdata K)) (s : lstate K) (k : K),
+    lrun K keqb mono n temps T true ((t, EColRet r o') :: tr) = Some s -> nonneg K (called K mono tr) ->
+    exists (ts : Z) (hr0 : list (sop K)),
+      before_last_col K r (lin K tr) = Some (ts, hr0) /\
+      md_equiv K keqb (out_at K keqb mono n temps hr0 r ts) o' /\
+      (if is_delta (temps r) then got K keqb r k ((t, EColRet r o') :: tr) else pointv K keqb o' k) =
+        sumv K keqb k (adds_all K mono hr0) /\
+      sumv K keqb k (returned K mono (before_call K r tr)) <= sumv K keqb k (adds_all K mono hr0) /\
+      sumv K keqb k (adds_all K mono hr0) <= sumv K keqb k (called K mono tr).
+Proof. exact strict_bracket. Qed.
+Print Assumptions accepted_trace_meets_spec_sched_partial.
+
+(* ... and its MetricData starts where the previous one computed for r ended (SDK start if none; SDK start for a cumulative
+   reader) and ends at the collection time *)
+Theorem lock_granularity_intervals : forall (K : Type) (keqb : K -> K -> bool),
+  (forall a b : K, keqb a b = true <-> a = b) ->
+  forall (mono : bool) (n : nat) (temps : nat -> temporality) (T : nat) (tr : list (nat * ev K)) (t r : nat)
+         (md' : mdata K) (s : lstate K),
+    lrun K keqb mono n temps T true ((t, EColRet r (Some md')) :: tr) = Some s ->
+    exists (ts : Z) (hr0 : list (sop K)),
+      before_last_col K r (lin K tr) = Some (ts, hr0) /\ md_end md' = ts /\
+      md_start md' = (if is_delta (temps r) then last_end K r (outs K keqb mono n temps hr0) else sdk_start).
+Proof. exact strict_intervals. Qed.
+Print Assumptions lock_granularity_intervals.
+
+(* non-vacuity: an accepted interleaving in which an Add lands between the two critical sections of a Collect and two
+   Collects overlap (nothing is lost; but the cumulative reader is given nothing for a measurement recorded before its
+   Collect was called - why the bracket needs the SDK's serialization, under which that interleaving is impossible) *)
+Theorem lock_granularity_overlap_example :
+  option_map (fun s => (l_outs nat s, s_cur nat (l_st nat s), s_unrep nat (l_st nat s) 1%nat)) (ex_run false ex_overlap) =
+    Some ([(1%nat, 11, None); (0%nat, 10, Some (mkMD Delta 0 10 [(7%nat, 3)]))], [(7%nat, 4)], Some [[(7%nat, 3)]]) /\
+  ex_run true ex_overlap = None.
+Proof. exact (conj ex_overlap_accepted ex_overlap_not_strict). Qed.
+Print Assumptions lock_granularity_overlap_example.
+
+(* the SDK's discipline with an Add between the critical sections: accepted, the measurement is in the next interval;
+   the traces of the seeded defects C06_c (the Collect in progress reports that Add) and C06_e (the aggregation's lock is
+   taken after attribute_hashmap_lock_ was released) are rejected *)
+Theorem lock_granularity_defects_rejected :
+  option_map (l_outs nat) (ex_run true ex_between) = Some [(0%nat, 10, None); (0%nat, 20, Some (mkMD Delta 0 20 [(7%nat, 4)]))] /\
+  ex_run true ex_c06c = None /\ ex_run false ex_c06c = None /\
+  ex_run true [(2, EAddCall 7%nat 4); (2, EALock); (2, EAUnlock 7%nat 4); (2, EOther)]%nat = None.
+Proof. exact (conj ex_between_accepted (conj (proj1 ex_c06c_rejected) (conj (proj2 ex_c06c_rejected) ex_c06e_rejected))). Qed.
+Print Assumptions lock_granularity_defects_rejected.
